@@ -107,7 +107,7 @@ PROPS["C06"] = {
     "min": {"quick": {"named_pipe_requests": 200, "evaluations": 50_000, "files_served_intact": 1000, "redirects_301": 50, "availability_requests": 1000, "over_the_wire_files_intact": 30},
             "thorough": {"named_pipe_requests": 200, "evaluations": 1_000_000}},
     "assumptions": [],
-    "level_text": "The three real handlers (threaded runtime) and the tokio runtime's serve_dir / serve_as_file_path are called in-process on generated directory trees with uniquely tagged file contents (a few bytes to 5 MiB) and canary files outside the root, for every file's own path and for all compositions of traversal/encoding segments to depth 3 (4 thorough); each response is judged by the confinement rule and by an independent resolver of the documented lookup rules.",
+    "level_text": "The three real handlers (threaded runtime) and the tokio runtime's serve_dir / serve_as_file_path are called in-process on generated directory trees with uniquely tagged file contents (a few bytes to 5 MiB) and canary files outside the root and named pipes inside it, for every file's own path and for all compositions of traversal/encoding segments to depth 3 (4 thorough); each response is judged by the confinement rule and by an independent resolver of the documented lookup rules.",
     "level_note": "Trusted: the harness's resolver (uses the file system as judge) and MIME table; no symlinks.",
     "technique": "runtime monitoring: canary/tag confinement monitor + reference-resolver oracle over bounded-exhaustive request paths",
 }
@@ -120,7 +120,7 @@ PROPS["C17"] = {
     "min": {"quick": {"tokens_in_randomness_monitor": 4000, "signouts_through_a_route_handler_effective": 6, "sequences": 150, "operations": 3000, "token_probes": 10_000, "route_requests": 500, "sessions_expired_at_birth": 100},
             "thorough": {"tokens_in_randomness_monitor": 4000, "signouts_through_a_route_handler_effective": 6, "sequences": 2400}},
     "assumptions": [],
-    "level_text": "Random operation sequences are executed on the real AuthProvider while a reference model is stepped alongside; every return value is compared and every token ever issued (and, when the user set changes, every password x uid) is probed after each step; the authenticated-route clause is observed on a real App over loopback.",
+    "level_text": "Random operation sequences are executed on the real AuthProvider while a reference model is stepped alongside; every return value is compared and every token ever issued (and, when the user set changes, every password x uid) is probed after each step; the authenticated-route clause is observed on a real App over loopback (also with a handler that itself uses the provider), and the population of issued tokens is checked statistically for the variety 256 random bits give.",
     "level_note": "Trusted: the reference model in c17.rs. Expiry is made logical (lifetime 0 vs 3600 s), so no wall-clock decision is involved.",
     "technique": "runtime monitoring: model-based history checking with full-state probes after every operation",
 }
@@ -188,7 +188,7 @@ PROPS["C20"] = {
     "min": {"quick": {"rejecting_condition_returns_and_rebinds_ok": 5, "fd_exhaustion_survived_and_serving": 1, "scenarios": 180, "returns_observed": 180, "rebinds_ok": 180, "in_flight_responses_complete": 150},
             "thorough": {"rejecting_condition_returns_and_rebinds_ok": 5, "fd_exhaustion_survived_and_serving": 1, "scenarios": 1400}},
     "assumptions": [],
-    "level_text": "Real Apps are started on loopback, put into generated traffic states (idle, half-sent, running handlers, large responses, WebSockets, occupied pools), signalled at varied instants with delays injected at the accept-loop failpoints, and observed: time until run returns, re-bind of the port, completeness of every in-flight response whose handler had started before the signal.",
+    "level_text": "Real Apps are started on loopback, put into generated traffic states (idle, half-sent, running handlers, large responses, WebSockets, occupied pools), signalled at varied instants with delays injected at the accept-loop failpoints, and observed: time until run returns, re-bind of the port, completeness of every in-flight response whose handler had started before the signal; plus connection conditions that are slow or reject everything, and a transient descriptor exhaustion (run must not return before the signal).",
     "level_note": "Trusted: hvcommon::shutlab; the 10 s progress bound; loopback TCP.",
     "technique": "runtime monitoring: bounded-progress monitor + wire monitor of in-flight responses under generated traffic states and failpoint delays",
 }
@@ -215,7 +215,7 @@ PROPS["C09"] = {
     "min": {"quick": {"concurrent_rotations_with_overlapping_exchanges": 20, "exchanges": 3000, "cut_responses": 2500, "complete_responses": 100, "stall_and_refusal_cases": 40, "malformed_upstream_cases": 200, "upstream_records_checked": 2000, "proxy_handler_calls": 100, "load_balancer_histories": 200, "late_bytes_cases": 15, "concurrent_rotation_rounds": 35},
             "thorough": {"concurrent_rotations_with_overlapping_exchanges": 20, "exchanges": 40_000}},
     "assumptions": [],
-    "level_text": "proxy_request and proxy_handler are executed against a scripted upstream for every enumerated fault: each valid response cut at every byte offset, non-HTTP answers, refusal, silence, close, trickle; the returned response and its latency are judged against the reference reader's verdict on what the upstream actually sent, and the upstream's record of the relayed request is compared with the client's request.",
+    "level_text": "proxy_request and proxy_handler are executed against a scripted upstream for every enumerated fault: each valid response cut at every byte offset, non-HTTP answers, refusal, silence, close, trickle; the returned response and its latency are judged against the reference reader's verdict on what the upstream actually sent, and the upstream's record of the relayed request is compared with the client's request; overlapping proxy_handler calls are observed at the upstreams (strict rotation, exchanges in progress at once).",
     "level_note": "Trusted: hvcommon::net scripted server, httpref; wall-clock bound timeout + 3 s.",
     "technique": "runtime monitoring: fault enumeration against a scripted peer with return-value, latency and peer-side event-log oracles; conservation check for round-robin",
 }
